@@ -29,11 +29,15 @@ LEVEL_TEXT = (
     "(theorems cart_deriv_fails_on_pos_z_axis, cart_deriv_fails_at_centre: the y-component reported there is 0 for "
     "every input); these are replayed on the implementation by the oracle and listed as findings. Tie to the code: hand "
     "model compared with the implementation on random (not band-limited) inputs; the property itself is evaluated on the "
-    "implementation for random band-limited functions with harmonics from scipy.special.sph_harm_y."
+    "implementation for random band-limited functions with harmonics from scipy.special.sph_harm_y. Round 3: "
+    "convert_cartesian_to_spherical, the whole inner interpolate_low of AtomGrid.interpolate and the inner interpolate_low of MolGrid.interpolate "
+    "are regenerated from the source statement by statement and proved equal to the hand model for every scalar type (gen_convert_*, "
+    "gen_interpolate_low_eq_model, gen_mol_low_eq_model); the two windows of the decomposition side are stated about the regenerated constants "
+    "(gen_integrate_window: regenerated angular weights exactly for r_i < 1e-8; gen_convert_atomic_window: canonical angles only on shells with r_i == 0)."
 )
 TECHNIQUE = "Lean 4 proof (conditional on H1/H2/H3) of the hand model + differential correspondence + oracle with independent harmonics and finite differences"
-GEN = ["atominterp"]
-LEAN_MODULES = ["GridVerif.Props.C09", "GridVerif.Props.C09.Example", "GridVerif.Props.C09.Gen"]
+GEN = ["harmonics", "atominterp"]
+LEAN_MODULES = ["GridVerif.Props.C09", "GridVerif.Props.C09.Example", "GridVerif.Props.C09.Gen", "GridVerif.Props.C09.Gen2"]
 THEOREMS = [
     "GridVerif.C09.reweighted_sum_is_integral",
     "GridVerif.C09.angular_integral_exact",
@@ -60,6 +64,22 @@ THEOREMS = [
     "GridVerif.C09.gen_reweighted_sum_is_integral",
     "GridVerif.C09.gen_angular_integral_exact",
     "GridVerif.C09.gen_components_recovered",
+    # round 3: convert_cartesian_to_spherical, the inner interpolate_low of AtomGrid.interpolate and of MolGrid.interpolate, generated
+    "GridVerif.C09.gen_cartToSph_eq_model",
+    "GridVerif.C09.gen_convDeriv_eq_model",
+    "GridVerif.C09.gen_convert_points",
+    "GridVerif.C09.gen_convert_points_flat",
+    "GridVerif.C09.gen_convert_rejects",
+    "GridVerif.C09.gen_convert_atomic",
+    "GridVerif.C09.gen_basis_angles_eq_model",
+    "GridVerif.C09.gen_interpolate_low_eq_model",
+    "GridVerif.C09.gen_mol_low_eq_model",
+    "GridVerif.C09.gen_mol_low_empty",
+    "GridVerif.C09.gen_defaults",
+    "GridVerif.C09.gen_default_call_is_value",
+    "GridVerif.C09.gen_mol_interp_is_sum",
+    "GridVerif.C09.gen_integrate_window",
+    "GridVerif.C09.gen_convert_atomic_window",
 ]
 RULE = (
     "correspondence: atomic grids with 1..7 shells, radial nodes incl. r = 0, 0 < r < 1e-8 and ordinary ones, random positive "
@@ -77,7 +97,17 @@ RULE = (
     "nodes 9.99e-9, 1e-8, 1.01e-8 incl. subnormal products f_j w_j (which separate the two branches of the 1e-8 rule); evaluation points at "
     "|r| = 9e-11 .. 1.1e-10 and with z/r rounding to +-1; keyword and positional forms of the interpolant. Oracle additionally: the clauses along "
     "call histories, for integer (shell-wise constant) / float32 / read-only / strided func_vals, on grids from from_pruned / from_preset / sizes=, "
-    "rotated grids with an r = 0 shell, MolGrid under histories and rebuilt"
+    "rotated grids with an r = 0 shell, MolGrid under histories and rebuilt. "
+    "Round 3: the generated definitions run by the driver on the same inputs (integrate / average / components / angles of the atomic grid points; "
+    "convert_cartesian_to_spherical for (M, 3), flat (3,) and (6,) points, an explicit centre and the rejected shapes (4,), (M, 2), (1, M, 3); the whole "
+    "interpolate_low end to end from the library's spline coefficients with the harmonics of the Lean model, every order and flag combination, points "
+    "incl. the centre, the polar axis and |r| within a factor 1.01 and 100 of 1e-10; the MolGrid summation loop; signature defaults, warning condition, "
+    "reshape primitive); radial nodes a factor 100 on either side of 1e-8; one interpolant asked with alternating option values, two interpolants of "
+    "one grid alive and asked alternately, first request on a new grid non-default (bit for bit against newly built grids). Oracle additionally: the "
+    "clauses for function values scaled by 1e-14 .. 1e14, 1e-50, 1e-290 and radial scales 1e-5 .. 1e5 (all tolerances relative to the data); centres "
+    "translated by 2^10 .. 2^20 against the untranslated problem; every array handed out by the decomposition / interpolation routes edited in place "
+    "and requested again; the interpolant on the whole sphere of each radial shell, at the Cartesian origin, on shells on the axes; the Cartesian "
+    "report = chain rule of the spherical report wherever |r| >= 1e-10, |phi| >= 1e-10; two interpolants alive; single-shell grids"
 )
 TRUSTED_BASE = [
     "Lean 4.33 kernel; axioms propext, Classical.choice, Quot.sound only (audited per theorem)",
@@ -85,7 +115,12 @@ TRUSTED_BASE = [
     "its integrateAngular / radialComponents / averageValues / splines are proved equal to Gen/AtomInterp.lean, the AST translation "
     "(harness/translate/atominterp.py, regenerated on every run) of integrate_angular_coordinates (weights, slice bounds, division by "
     "r**2 * w, the r < 1e-8 branch), spherical_average, radial_component_splines (einsum product, zeroing rule, l_max // 2) and of the "
-    "degree arguments of the harmonics calls in interpolate_low; attribute dictionary self.weights = wts, self.indices = idx, ... trusted",
+    "degree arguments of the harmonics calls in interpolate_low; attribute dictionary self.weights = wts, self.indices = idx, ... trusted; "
+    "round 3: convert_cartesian_to_spherical, the inner interpolate_low of AtomGrid.interpolate and of MolGrid.interpolate are translated statement by "
+    "statement as well (calls of convert_cart_to_sph / convert_derivative_from_spherical_to_cartesian go to the generated routines of Gen/Harmonics.lean, "
+    "translator harness/translate/harmonics.py); trusted readings: arrays as (shape, C-order data) with the primitive pyReshape (validated against NumPy on "
+    "every run), row-wise column assignment colsFrom, np.hstack of 1-D arrays = concatenation, the loop derivs[i] = ... over np.zeros((n, 3)) as List.set, "
+    "einsum('ij,ij->j') as the sum over the rows of the first operand, output += ... as entrywise sum; warnings.warn has no effect on the result",
     "Elem instance of the reals (sqrt, sin, cos, arccos, arctan2 = Complex.arg, pi)",
     "NumPy slicing / einsum / hstack / broadcasting semantics as modelled",
 ]
@@ -120,7 +155,7 @@ def _mods():
 # input generation
 # ----------------------------------------------------------------------------------------------
 def _radial(rng, n, zero_kind):
-    """n strictly increasing nodes; zero_kind: 'none' | 'zero' | 'tiny' | 'both' | 'edge' | 'zero-edge'
+    """n strictly increasing nodes; zero_kind: 'none' | 'zero' | 'tiny' | 'both' | 'edge' | 'zero-edge' | 'far-edge'
     ('edge': nodes just below, exactly at and just above the hard-coded 1e-8 of integrate_angular_coordinates,
     and one between 1e-8 and 1e-7; at least two ordinary nodes follow)."""
     r = []
@@ -132,6 +167,10 @@ def _radial(rng, n, zero_kind):
         x = 0.0
     if zero_kind in ("edge", "zero-edge"):
         r += [9.99e-9, 1e-8, 1.01e-8, rng.choice([2e-8, 5e-8, 9.9e-8])]
+        n = max(n, len(r) + 2)
+    if zero_kind == "far-edge":
+        # round 3 (class 7): a factor ~100 on either side of the same threshold
+        r += [rng.choice([1e-10, 2e-10]), rng.choice([1e-6, 7e-7])]
         n = max(n, len(r) + 2)
     while len(r) < n:
         x += rng.uniform(0.15, 0.9)
@@ -227,8 +266,10 @@ def _eval_points(rng, g, m):
     # next to the hard-coded thresholds of the evaluation side: |r| just below / at / above 1e-10, directions whose z / r rounds
     # to +-1 (phi = 0 or pi with theta != 0) and a polar angle of ~2e-8 (the smallest non-zero one arccos returns is 1.5e-8)
     near = [[9e-11, 0, 0], [0, 1.1e-10, 0], [0, 0, -9e-11], [0, 0, 1e-10], [6e-11, 6e-11, 6e-11], [0, 1e-9 * rmax, 0.5 * rmax],
-            [1e-9 * rmax, -1e-9 * rmax, -0.5 * rmax], [2e-8 * rmax, 0, 0.5 * rmax]]
-    pts += [c + np.array(v, dtype=float) for v in rng.sample(near, 2)]
+            [1e-9 * rmax, -1e-9 * rmax, -0.5 * rmax], [2e-8 * rmax, 0, 0.5 * rmax],
+            # round 3 (class 7): within a factor 1.01 and a factor 100 of the same threshold
+            [9.9e-11, 0, 0], [0, 0, 1.01e-10], [0, -1e-12, 0], [1e-8, 0, 0]]
+    pts += [c + np.array(v, dtype=float) for v in rng.sample(near, 3)]
     return np.array(pts)
 
 
@@ -664,6 +705,273 @@ def _corr_round2(ctx, M, add):
         guarded("radial nodes next to 1e-8", None, lambda: _r2_threshold(ctx, M, add, ["normal", "f-tiny", "w-tiny"][it % 3]))
 
 
+
+# ----------------------------------------------------------------------------------------------
+# round 3: the generated definitions run by the driver (Gen/AtomInterp.lean: integrate / average / components, the no-argument and the
+# with-argument convert_cartesian_to_spherical, the whole interpolate_low with PPoly splines and the harmonics of Model/Harmonics.lean,
+# the summation loop of MolGrid.interpolate, defaults, warning condition, reshape primitive); classes 10 / 11 on the evaluation side
+# ----------------------------------------------------------------------------------------------
+def _spline_tokens(splines):
+    """knots, number of rows, and per row scipy's `CubicSpline.c[k, i]` at column `k (n-1) + i`"""
+    x = np.asarray(splines[0].x, dtype=float)
+    cm = np.array([np.asarray(sp.c, dtype=float).reshape(-1) for sp in splines])
+    return f"{fvec(x)} {len(splines)} {fmat(cm)}"
+
+
+def _ppoly_mag(splines, r, nu):
+    """per point: sum over the splines of the magnitudes of the terms of the piece evaluated (the pieces of a spline with knots 1e-9 apart have
+    coefficients ~1e27 that cancel; two correct evaluations differ at eps times this)"""
+    x = np.asarray(splines[0].x, dtype=float)
+    i = np.clip(np.searchsorted(x, r, side="right") - 1, 0, len(x) - 2)
+    d = np.abs(r - x[i])
+    out = np.zeros(len(r))
+    for sp in splines:
+        c = np.abs(np.asarray(sp.c, dtype=float))
+        for k in range(4):
+            e = 3 - k - nu
+            if e >= 0:
+                out += 6.0 * c[k, i] * d ** e
+    return out
+
+
+def _arr_tokens(a):
+    a = np.asarray(a, dtype=float)
+    return f"{vec(list(a.shape))} {fvec(a.reshape(-1))}"
+
+
+def _r3_gen_ops(ctx, M, add, g, info, first):
+    """one grid through the generated definitions"""
+    rng = ctx.rng
+    ut = M[3]
+    N = g.size
+    gt = _grid_tokens(M, g)
+    f = ctx.np_rng.normal(size=N) * 10 ** rng.uniform(-2, 2)
+    fscale = float(np.max(np.abs(f)))
+    nt = _nontrivial(info)
+    # integrate_angular_coordinates / spherical_average node values / radial components through Gen
+    ctx.count(["gen", "integrate", info], nontrivial=nt, tag="gen:integrate")
+    add(f"C09.gen_integrate {gt} {fvec(f)}", _chk_integrate(ctx, "atomgrid.integrate_angular_coordinates:gen", "generated integrate_angular_coordinates", info,
+                                                            g.integrate_angular_coordinates(f.copy()), fscale))
+    if g.n_shells >= 2:
+        with _SplineSpy(M[0]) as spy:
+            spl = g.spherical_average(f.copy())
+        av = spy.calls[-1][1] if spy.calls and spy.calls[-1][1].shape == (g.n_shells,) else spl(g.rgrid.points)
+
+        def chk_av(ans, av=av):
+            t = Tokens(ans); t.tok()
+            if not ans.startswith("ok") or not _cmp_arrays(av, t.fvec(), 1e-9, scale=fscale):
+                ctx.fail("corr", "atomgrid.spherical_average:gen", "node values of the spherical average differ from the generated definition", witness=info)
+        ctx.count(["gen", "average", info], nontrivial=nt, tag="gen:average")
+        add(f"C09.gen_average {gt} {fvec(f)}", chk_av)
+        comps = _comps(M, g, f.copy())
+        ctx.count(["gen", "components", info], nontrivial=nt, tag="gen:components")
+        add(f"C09.gen_components {gt} {fmat(_indep_basis(M, g))} {fvec(f)}",
+            _chk_components(ctx, "atomgrid.radial_component_splines:gen", "generated radial_component_splines", info, comps, fscale))
+    # the no-argument convert_cartesian_to_spherical (angles of the cached basis) through the generated routine
+    ang_impl = g.convert_cartesian_to_spherical()[:, 1:]
+
+    def chk_ga(ans, want=ang_impl):
+        t = Tokens(ans); t.tok()
+        if not ans.startswith("ok") or not _cmp_arrays(want, np.array(t.fmat()), 1e-13, scale=4.0, atol=1e-15):
+            ctx.fail("corr", "atomgrid.convert_cartesian_to_spherical:gen-atomic", "angles of the atomic grid points differ from the generated convert_cartesian_to_spherical()",
+                     witness=info)
+    ctx.count(["gen", "grid_angles", info], nontrivial=nt, tag="gen:grid_angles:" + info["zero"])
+    add(f"C09.gen_grid_angles {g.n_shells} {fvec(g.rgrid.points)} {vec([int(i) for i in g.indices])} "
+        f"{' '.join(f2b(x) for x in g.center)} {fmat(g.points)} {fmat(_regen_pts(M, g))}", chk_ga)
+    # convert_cartesian_to_spherical(points, center): (M, 3), flat (3,) / (6,), explicit centre, rejected shapes
+    pts = _eval_points(rng, g, 3)
+    other = np.array([rng.uniform(-1, 1) for _ in range(3)])
+    shapes = [("(M,3)", pts, None), ("(M,3)+center", pts, other), ("(3,)", pts[0].copy(), None), ("(6,)", pts[:2].reshape(-1).copy(), other),
+              ("(4,)", pts.reshape(-1)[:4].copy(), None), ("(M,2)", pts[:, :2].copy(), None), ("(1,M,3)", pts[None, :, :].copy(), None)]
+    for kind, arr, cen in (shapes if first else rng.sample(shapes, 4)):
+        try:
+            got = ("ok", np.asarray(g.convert_cartesian_to_spherical(arr) if cen is None else g.convert_cartesian_to_spherical(arr, center=cen), dtype=float))
+        except ValueError:
+            got = ("value-error", None)
+
+        def chk_cv(ans, got=got, kind=kind, arr=arr, cen=cen):
+            if got[0] != "ok" or not ans.startswith("ok"):
+                if got[0] != ans.strip():
+                    ctx.fail("corr", "atomgrid.convert_cartesian_to_spherical:gen-shape", f"points of shape {kind}: implementation {got[0]}, generated definition {ans[:40]}",
+                             witness=dict(info=info, points=arr))
+                return
+            t = Tokens(ans); t.tok()
+            mm = np.array(t.fmat())
+            if mm.shape != got[1].shape or not _cmp_arrays(got[1], mm, 1e-13, scale=max(1.0, float(np.max(np.abs(got[1])))), atol=1e-15):
+                ctx.fail("corr", "atomgrid.convert_cartesian_to_spherical:gen", f"points of shape {kind}, center={None if cen is None else cen.tolist()}: spherical coordinates differ "
+                         "from the generated definition", witness=dict(info=info, points=arr))
+        ctx.count(["gen", "convert", kind, info], nontrivial=True, tag="gen:convert:" + kind)
+        add(f"C09.gen_convert {' '.join(f2b(x) for x in g.center)} {_arr_tokens(arr)} " + ("0" if cen is None else "1 " + " ".join(f2b(x) for x in cen)), chk_cv)
+    # the whole interpolate_low
+    if g.n_shells < 2 or int(g.l_max) // 2 > 7:
+        return
+    interp = g.interpolate(f.copy())
+    splines = g.radial_component_splines(f.copy())
+    st = _spline_tokens(splines)
+    sph = g.convert_cartesian_to_spherical(pts)
+    r_p = sph[:, 0]
+    s0 = np.array([sp(r_p, 0) for sp in splines])
+    combos = [(0, 0, 0), (1, 0, 0), (1, 1, 0), (1, 0, 1), (2, 0, 1), (3, 0, 1), (2, 0, 0), (1, 1, 1), (0, 1, 1), (3, 1, 0)]
+    forms = [("(M,3)", pts)] + ([("(3,)", pts[-1].copy())] if first or rng.random() < 0.3 else [])
+    for kind, arr in forms:
+        npt = 1 if arr.ndim == 1 else len(arr)
+        sel = slice(-1, None) if arr.ndim == 1 else slice(None)
+        for (dv, dsph, orad) in (combos if first else rng.sample(combos, 4)):
+            try:
+                out = interp(arr, deriv=dv, deriv_spherical=bool(dsph), only_radial_deriv=bool(orad))
+                impl = ("ok", list(np.shape(out)), np.asarray(out, dtype=float).reshape(-1))
+            except ValueError:
+                impl = ("value-error", None, None)
+            sN = np.array([sp(r_p, dv) for sp in splines])[:, sel]
+            sc = (np.sum(np.abs(sN), axis=0) + np.sum(np.abs(s0[:, sel]), axis=0)) * (1 + int(g.l_max)) + 1e-300       # per point
+            sc = sc + 1e-6 * (_ppoly_mag(splines, r_p[sel], dv) + _ppoly_mag(splines, r_p[sel], 0)) * (1 + int(g.l_max))
+            # amplification of the angular derivatives by the matrix of convert_derivative_from_spherical_to_cartesian at each point
+            ra, pa = np.abs(sph[sel, 0]), np.abs(sph[sel, 2])
+            den = np.where(ra < 1e-10, 1.0, np.where(pa < 1e-10, ra, ra * np.abs(np.sin(sph[sel, 2]))))
+            amp = 1.0 + 1.0 / np.maximum(den, 1e-300)
+
+            def chk_lo(ans, impl=impl, dv=dv, dsph=dsph, orad=orad, arr=arr, sc=sc, amp=amp, npt=npt, kind=kind):
+                key = "atomgrid.interpolate:gen:" + ("values" if dv == 0 else "radial-deriv" if orad else "deriv-spherical" if dsph else "deriv-cartesian" if dv == 1 else "deriv-order")
+                if impl[0] != "ok" or not ans.startswith("ok"):
+                    if impl[0] != ans.strip():
+                        ctx.fail("corr", key, f"deriv={dv}, deriv_spherical={bool(dsph)}, only_radial_deriv={bool(orad)}: implementation {impl[0]}, generated interpolate_low {ans[:40]}",
+                                 witness=dict(info=info, points=arr))
+                    return
+                t = Tokens(ans); t.tok()
+                shape = t.vec(); data = np.array(t.fvec())
+                if shape != impl[1] or data.shape != impl[2].shape:
+                    return ctx.fail("corr", key, f"points {kind}, deriv={dv}, deriv_spherical={bool(dsph)}, only_radial_deriv={bool(orad)}: shape {impl[1]} vs generated {shape}",
+                                    witness=dict(info=info, points=arr))
+                if dv == 1 and not orad and not dsph:
+                    tol = np.repeat(2e-9 * sc * amp, 3)
+                elif dv == 1 and not orad:
+                    tol = np.tile(2e-9 * sc, 3)
+                else:
+                    tol = 2e-9 * sc
+                bad = ~(np.abs(impl[2] - data) <= tol) & ~(np.isnan(impl[2]) & np.isnan(data))
+                if bad.any():
+                    k = int(np.argmax(bad))
+                    ctx.fail("corr", key, f"points {kind}, deriv={dv}, deriv_spherical={bool(dsph)}, only_radial_deriv={bool(orad)}: entry {k} of the output {impl[2][k]!r} differs from the "
+                             f"generated interpolate_low {data[k]!r} (PPoly splines from the library's coefficients, harmonics of the Lean model)",
+                             witness=dict(info=info, points=arr, impl=impl[2], model=data))
+            ctx.count(["gen", "interp_low", info, kind, dv, dsph, orad], nontrivial=True, tag=f"gen:interp_low:deriv={dv}:sph={dsph}:rad={orad}")
+            add(f"C09.gen_interp_low {' '.join(f2b(x) for x in g.center)} {vec([int(d) for d in g.degrees])} {st} {_arr_tokens(arr)} {dv} {dsph} {orad}", chk_lo)
+
+
+def _r3_fixed_ops(ctx, M, add):
+    """defaults of the two signatures, the condition of the warning, the reshape primitive"""
+    import inspect
+    import warnings
+    ag, od, mg, bk = M[0], M[1], M[4], M[5]
+    g = ag.AtomGrid(od.OneDGrid(np.array([0.3, 0.9, 1.7]), np.array([0.4, 0.6, 0.9]), (0, np.inf)), degrees=[3, 5, 3])
+    F = g.interpolate(np.cos(np.arange(g.size)))
+    mol = mg.MolGrid(np.array([1]), [g], bk.BeckeWeights(), store=True)
+    FM = mol.interpolate(np.cos(np.arange(g.size)))
+
+    def dflt(fun):
+        ps = list(inspect.signature(fun).parameters.values())
+        return [int(ps[1].default), int(bool(ps[2].default)), int(bool(ps[3].default))]
+    want = dflt(F) + dflt(FM)
+
+    def chk_d(ans):
+        ctx.count(["gen", "defaults"], nontrivial=False, tag="gen:defaults")
+        if ans.split() != ["ok"] + [str(x) for x in want]:
+            ctx.fail("corr", "atomgrid.interpolate:gen:defaults", f"defaults of the two interpolate_low signatures {want}, generated {ans}")
+    add("C09.gen_defaults", chk_d)
+    p = np.array([[0.2, 0.1, 0.4]])
+    for ds in (False, True):
+        for orad in (False, True):
+            with warnings.catch_warnings(record=True) as rec:
+                warnings.simplefilter("always")
+                F(p, 1, ds, orad)
+            warned = int(len(rec) > 0)
+
+            def chk_w(ans, warned=warned, ds=ds, orad=orad):
+                ctx.count(["gen", "warns", ds, orad], nontrivial=False, tag="gen:warns")
+                if ans.split() != ["ok", str(warned)]:
+                    ctx.fail("corr", "atomgrid.interpolate:gen:warning", f"deriv_spherical={ds}, only_radial_deriv={orad}: warning issued {bool(warned)}, generated condition {ans}")
+            add(f"C09.gen_warns {int(ds)} {int(orad)}", chk_w)
+    for shape, dims in [((3,), (-1, 3)), ((6,), (-1, 3)), ((4,), (-1, 3)), ((12,), (2, -1)), ((12,), (-1, -1)), ((6,), (2, 3)), ((6,), (4, 2)), ((0,), (-1, 3)),
+                        ((2, 6), (-1, 3)), ((5,), (-2, 3)), ((6,), (3, -1, 1)), ((7,), (-1,))]:
+        try:
+            got = ["ok", str(len(dims))] + [str(x) for x in np.zeros(shape).reshape(*dims).shape]
+        except ValueError:
+            got = ["value-error"]
+
+        def chk_r(ans, got=got, shape=shape, dims=dims):
+            ctx.count(["gen", "reshape", list(shape), list(dims)], nontrivial=False, tag="primitive:reshape")
+            if ans.split() != got:
+                ctx.fail("corr", "primitive:reshape", f"np.zeros({shape}).reshape{dims}: NumPy {got}, primitive pyReshape {ans}")
+        add(f"C09.reshape {vec(list(shape))} {vec(list(dims))}", chk_r)
+
+
+def _r3_options(ctx, M, g, info):
+    """classes 10 / 11: one interpolant asked with alternating option values in a seeded order (the first request on a newly built grid is
+    a non-default one), two interpolants of one grid alive at once and asked alternately, the spherical coordinates with another centre
+    before anything else; every answer bit for bit that of a newly built grid that saw only that request."""
+    rng = ctx.rng
+    f1 = ctx.np_rng.normal(size=g.size)
+    f2 = ctx.np_rng.normal(size=g.size) * 2.5
+    pts = _eval_points(rng, g, 2)
+    pts2 = pts[::-1].copy() + 0.125
+    flags = FLAGS + [(1, False, True), (3, False, True), (0, True, False)]
+    g1 = _build(M, info)
+    other = np.array([0.5, -0.25, 2.0])
+    a = g1.convert_cartesian_to_spherical(pts, center=other)            # class 11: non-default option on a newly built grid, before anything else
+    b = g1.convert_cartesian_to_spherical(pts)
+    c = g1.convert_cartesian_to_spherical(pts, center=other)
+    ctx.count(["options", "convert-center", info], nontrivial=True, tag="options:convert-center-first")
+    ref = _build(M, info)
+    if not (_same(a, c) and _same(b, ref.convert_cartesian_to_spherical(pts)) and _same(a, _build(M, info).convert_cartesian_to_spherical(pts, other))):
+        ctx.fail("corr", "atomgrid.convert_cartesian_to_spherical:options", "convert_cartesian_to_spherical(points, center=c) / (points) / (points, center=c) on one grid: the answers depend on the order",
+                 witness=dict(info=info, points=pts))
+    F1, F2 = g1.interpolate(f1), g1.interpolate(f2)
+    seq = [(w, fl, q) for w in (0, 1) for fl in flags for q in (0, 1)]
+    rng.shuffle(seq)
+    nd = [k for k, x in enumerate(seq) if x[1] != (0, False, False)]
+    seq[0], seq[nd[0]] = seq[nd[0]], seq[0]                               # class 11: the first request is a non-default one
+    seq = seq[:14]
+    ctx.count(["options", info, [list(map(str, x)) for x in seq]], nontrivial=True, tag=f"options:first=deriv{seq[0][1][0]}")
+    done = []
+    for (w, fl, q) in seq:
+        P = (pts, pts2)[q]
+        done.append(f"F{w + 1}(points{q + 1}, {fl[0]}, {fl[1]}, {fl[2]})")
+        got = np.asarray((F1, F2)[w](P, fl[0], fl[1], fl[2]))
+        want = np.asarray(_build(M, info).interpolate((f1, f2)[w].copy())(P.copy(), fl[0], fl[1], fl[2]))
+        if not _same(got, want):
+            ctx.fail("corr", "atomgrid.interpolate:options", f"two interpolants F1 = interpolate(f1), F2 = interpolate(f2) of one grid, requests {done}: the last answer differs from "
+                     "that of a newly built grid that saw only this request", witness=dict(info=info, history=done, points=P))
+            break
+
+
+def _corr_round3(ctx, M, add):
+    import traceback
+    rng = ctx.rng
+
+    def guarded(what, info, fn):
+        try:
+            fn()
+        except Exception as e:  # noqa: BLE001
+            ctx.fail("corr", "atomgrid:raises", f"{what}: the implementation raised {type(e).__name__}: {e}", witness=dict(info=info, traceback=traceback.format_exc()[-1500:]))
+
+    def chk_e(ans):
+        ctx.count(["gen", "mol", 0], nontrivial=False, tag="gen:mol:0")
+        if ans.strip() != "index-error":
+            ctx.fail("corr", "molgrid.interpolate:gen", f"generated summation loop on an empty list of atomic interpolants: {ans[:40]} (Python: IndexError)")
+    add("C09.gen_mol_low 0", chk_e)
+    guarded("defaults / warning / reshape", None, lambda: _r3_fixed_ops(ctx, M, add))
+    fixed = [dict(n=2, method="lebedev", mixed=True, zero_kind="zero", cap=7), dict(n=3, method="maxdet", mixed=True, zero_kind="none", cap=6),
+             dict(n=3, method="spherical", mixed=False, zero_kind="both", cap=7), dict(n=4, zero_kind="far-edge", cap=7, center=np.zeros(3)),
+             dict(n=1, method="lebedev", zero_kind="none", cap=5)]
+    for ig in range(ctx.n(14, 120)):
+        kw = fixed[ig] if ig < len(fixed) else dict(cap=rng.choice([5, 7, 9, 11]), n=rng.choice([2, 3, 3, 4, 5]))
+        g, info = _atom_grid(ctx, M, **kw)
+        guarded("generated definitions", info, lambda: _r3_gen_ops(ctx, M, add, g, info, first=ig < 3))
+    for io in range(ctx.n(5, 40)):
+        g, info = _atom_grid(ctx, M, n=rng.choice([2, 3, 4]), cap=9)
+        guarded("alternating options / two interpolants alive", info, lambda: _r3_options(ctx, M, g, info))
+
+
 # ----------------------------------------------------------------------------------------------
 # correspondence
 # ----------------------------------------------------------------------------------------------
@@ -864,8 +1172,17 @@ def corr(ctx: Ctx):
                 if not ans.startswith("ok") or not _cmp_arrays(out.reshape(-1), np.array(t.fvec()), 1e-12, atol=1e-13):
                     ctx.fail("corr", "molgrid.interpolate", f"MolGrid.interpolate (deriv={dv}) differs from the model's sum over the atomic interpolants", witness=dict(natom=nat, infos=minfos))
             add(f"C09.mol_combine {nat} " + " ".join(fvec(p) for p in parts), chk_mol)
+            shp = vec(list(out.shape))
+
+            def chk_gm(ans, out=out, nat=nat, dv=dv, minfos=minfos):
+                ctx.count(["gen", "mol", nat, dv], nontrivial=nat >= 2, tag=f"gen:mol:{nat}")
+                t = Tokens(ans); t.tok()
+                if not ans.startswith("ok") or t.vec() != list(out.shape) or not _cmp_arrays(out.reshape(-1), np.array(t.fvec()), 1e-12, atol=1e-13):
+                    ctx.fail("corr", "molgrid.interpolate:gen", f"MolGrid.interpolate (deriv={dv}) differs from the generated summation loop over the atomic interpolants", witness=dict(natom=nat, infos=minfos))
+            add(f"C09.gen_mol_low {nat} " + " ".join(f"{shp} {fvec(p)}" for p in parts), chk_gm)
     # ---- round 2: dtype / container kinds, call histories, two grids alive, nodes next to the 1e-8 threshold
     _corr_round2(ctx, M, add)
+    _corr_round3(ctx, M, add)
     answers = driver_batch(lines)
     for ans, fn in zip(answers, checks):
         fn(ans)
@@ -905,9 +1222,11 @@ class BandLimited:
     """f = sum_{l <= L} g_lm(r) Y_lm with g_lm(r) = r^p (a0 + a1 r + a2 r^2) exp(-alpha r^2);
     smooth: p = l and a1 = 0 (a smooth function of space, single-valued at the centre); canonical: p = 0, any a1."""
 
-    def __init__(self, rng, L, smooth=True):
+    def __init__(self, rng, L, smooth=True, amp=1.0, rscale=1.0):
         self.L = L
         self.smooth = smooth
+        self.amp = float(amp)          # round 3 (class 8): f = amp * f0(r / rscale, angles)
+        self.rscale = float(rscale)
         self.nrows = (L + 1) ** 2
         self.ls = [l for l in range(L + 1) for _ in range(2 * l + 1)]
         self.a = np.array([[rng.uniform(-1, 1) for _ in range(3)] for _ in range(self.nrows)])
@@ -918,18 +1237,18 @@ class BandLimited:
 
     def g(self, r):
         """-> (nrows, len(r))"""
-        r = np.asarray(r, dtype=float)
+        r = np.asarray(r, dtype=float) / self.rscale
         out = []
         for row in range(self.nrows):
             p = self.ls[row] if self.smooth else 0
-            out.append(r ** p * (self.a[row, 0] + self.a[row, 1] * r + self.a[row, 2] * r * r) * np.exp(-self.alpha[row] * r * r))
+            out.append(self.amp * (r ** p * (self.a[row, 0] + self.a[row, 1] * r + self.a[row, 2] * r * r) * np.exp(-self.alpha[row] * r * r)))
         return np.array(out)
 
     def at(self, r, az, pol):
         return np.einsum("ij,ij->j", self.g(r), real_harmonics(self.L, az, pol))
 
     def to_json(self):
-        return dict(L=self.L, smooth=self.smooth, a=self.a.tolist(), alpha=self.alpha.tolist())
+        return dict(L=self.L, smooth=self.smooth, a=self.a.tolist(), alpha=self.alpha.tolist(), amp=self.amp, rscale=self.rscale)
 
 
 def _grid_values(M, g, bl):
@@ -997,9 +1316,10 @@ def build(info):
 def make_g(bl):
     L, smooth, a, alpha = bl['L'], bl['smooth'], np.array(bl['a']), np.array(bl['alpha'])
     ls = [l for l in range(L + 1) for _ in range(2 * l + 1)]
+    amp, rscale = bl.get('amp', 1.0), bl.get('rscale', 1.0)
     def gfun(r):
-        r = np.asarray(r, dtype=float)
-        return np.array([r ** (ls[k] if smooth else 0) * (a[k, 0] + a[k, 1] * r + a[k, 2] * r * r) * np.exp(-alpha[k] * r * r) for k in range(len(ls))])
+        r = np.asarray(r, dtype=float) / rscale
+        return np.array([amp * (r ** (ls[k] if smooth else 0) * (a[k, 0] + a[k, 1] * r + a[k, 2] * r * r) * np.exp(-alpha[k] * r * r)) for k in range(len(ls))])
     return gfun
 
 def values(grid, bl):
@@ -1155,8 +1475,9 @@ assert np.allclose(np.asarray(a, dtype=float), want, rtol=0, atol=1e-11 * max(1.
 """
 
 
-def _oracle_atom(ctx, M, g, info, bl, budget, label):
-    """every clause of the property on one grid and one band-limited function."""
+def _oracle_atom(ctx, M, g, info, bl, budget, label, derivs=True):
+    """every clause of the property on one grid and one band-limited function (derivs=False: without the finite-difference clauses,
+    whose step sizes assume radial spacings of order one)."""
     ag, od, ang, ut = M[0], M[1], M[2], M[3]
     rng = ctx.rng
     L = bl.L
@@ -1198,7 +1519,7 @@ def _oracle_atom(ctx, M, g, info, bl, budget, label):
                  snippet=snip("number of components", f"assert len(grid.radial_component_splines(vals)) == {nrows}"))
     comps = np.array([s(r_nodes) for s in splines])
     handed = np.array([y for (_, y) in spy.calls])
-    if info["zero"] in ("tiny", "both", "edge", "zero-edge") and handed.shape == comps.shape:
+    if info["zero"] in ("tiny", "both", "edge", "zero-edge", "far-edge") and handed.shape == comps.shape:
         # knots 1e-9 apart: reading a cubic piece back at its right end rounds at the size of its coefficients;
         # the clause is examined on the arrays the splines are built from
         comps = handed
@@ -1229,16 +1550,40 @@ def _oracle_atom(ctx, M, g, info, bl, budget, label):
         j = int(np.argmax(bad))
         ctx.fail("oracle", "atomgrid.interpolate:grid-values", f"interpolant at grid point {j} = {fv[j]!r}, function value {vals[j]!r}", witness=wit,
                  snippet=snip("interpolant at grid points", f"F = grid.interpolate(vals)\ngot = float(F(grid.points[{j}:{j}+1])[0])\nassert abs(got - vals[{j}]) <= {1e-8 * fscale * (1 + comps.shape[0])!r}, (got, vals[{j}])"))
+    # (4b) round 3 (class 12): on the whole sphere of every radial shell, not only at its grid points, the interpolant of a band-limited
+    #      function is the function (the splines pass through g_lm(r_i)): random directions, the three axes through the centre
+    c = g.center
+    ish = [i for i in range(g.n_shells) if r_nodes[i] > 0.0]
+    if ish:
+        nd = 3 if budget == "small" else 8
+        dirs = np.vstack([ctx.np_rng.normal(size=(nd, 3)), np.eye(3), -np.eye(3)[2:]])
+        dirs /= np.linalg.norm(dirs, axis=1)[:, None]
+        for i in (ish if budget != "small" else rng.sample(ish, min(2, len(ish)))):
+            P = c + float(r_nodes[i]) * dirs
+            _, az, pol = _angles(P - c)
+            want = bl.at(np.full(len(P), float(r_nodes[i])), az, pol)
+            got = np.asarray(F(P), dtype=float)
+            d = np.abs(np.nan_to_num(got - want, nan=np.inf))
+            j = int(np.argmax(d))
+            if got.shape != want.shape or d[j] > 1e-8 * fscale * (1 + comps.shape[0]):
+                ctx.fail("oracle", "atomgrid.interpolate:on-shell", f"interpolant at {P[j].tolist()} (a point of the sphere of radial shell {i}, r = {r_nodes[i]!r}, not a grid point) = {got.reshape(-1)[j]!r}, "
+                         f"function value {want[j]!r}", witness=dict(wit, point=P[j]),
+                         snippet=snip("interpolant on the sphere of a radial shell", f"p = np.array({P[j].tolist()!r})\nF = grid.interpolate(vals)\nr, az, pol = angles(np.array([p - grid.center]))\n"
+                                      f"want = float(np.einsum('ij,ij->j', gfun(np.array([{float(r_nodes[i])!r}])), real_harmonics(L, az, pol))[0])\n"
+                                      f"assert abs(float(F(np.array([p]))[0]) - want) <= {1e-8 * fscale * (1 + comps.shape[0])!r}, (float(F(np.array([p]))[0]), want)"))
     # (5) at arbitrary points: interpolant = sum spline * Y (independent harmonics and angles)
     rmax = float(r_nodes[-1])
-    c = g.center
     npt = 6 if budget == "small" else 25
     dirs = ctx.np_rng.normal(size=(npt, 3))
     dirs /= np.linalg.norm(dirs, axis=1)[:, None]
     radii = np.array([rng.uniform(0.05, 1.0) * rmax for _ in range(npt)])
     special = np.array([[0, 0, 0.0], [0, 0, 0.43 * rmax], [0, 0, -0.71 * rmax], [0.3 * rmax, 0, 0], [0, -0.55 * rmax, 0],
                         # next to the 1e-10 thresholds of the evaluation side (the value clause has no special case there)
-                        [0, 0, 9e-11], [1.1e-10, 0, 0], [0, 1e-9 * rmax, 0.5 * rmax], [2e-8 * rmax, 0, -0.5 * rmax]])
+                        [0, 0, 9e-11], [1.1e-10, 0, 0], [0, 1e-9 * rmax, 0.5 * rmax], [2e-8 * rmax, 0, -0.5 * rmax],
+                        # round 3 (classes 7, 12): a factor 1.01 / 100 from that threshold; the Cartesian origin (the centre may be elsewhere);
+                        # points of a radial shell on the polar axis and on the x axis
+                        [9.9e-11, 0, 0], [0, -1.01e-10, 0], [0, 0, 1e-12], [-1e-8, 0, 0], (-c).tolist(),
+                        [0, 0, float(r_nodes[-2])], [float(r_nodes[-1]), 0, 0], [0, 0, -float(r_nodes[g.n_shells // 2])]])
     pts = c + np.vstack([dirs * radii[:, None], special])
     rel = pts - c                          # the position about the centre of the point actually handed over
     rr, az, pol = _angles(rel)
@@ -1255,7 +1600,9 @@ def _oracle_atom(ctx, M, g, info, bl, budget, label):
                               f"r, az, pol = angles(np.array([p - grid.center]))\nY = real_harmonics(int(max(grid.degrees)) // 2, az, pol)\n"
                               f"want = sum(float(spl[k](r[0])) * Y[k, 0] for k in range(len(spl)))\nassert abs(float(F(np.array([p]))[0]) - want) <= {1e-10 * sscale!r}"))
     # (6) derivatives against finite differences of the interpolant itself
-    _oracle_derivs(ctx, g, info, bl, F, splines, wit, budget)
+    if derivs:
+        _oracle_derivs(ctx, g, info, bl, F, splines, wit, budget)
+        _oracle_chain(ctx, g, info, bl, F, wit)
     # (7) spherical average integrates back
     avg = g.spherical_average(vals.copy())
     back = float(g.rgrid.integrate(4 * math.pi * r_nodes ** 2 * avg(r_nodes)))
@@ -1271,6 +1618,24 @@ def _oracle_atom(ctx, M, g, info, bl, budget, label):
     w2[: min(bl2.nrows, c2.shape[0])] = bl2.g(r_nodes)[: c2.shape[0]]
     if not _cmp_arrays(c2, w2, 1e-9, scale=float(np.max(np.abs(w2))) * 4 + 1e-300):
         ctx.fail("oracle", "atomgrid.radial_component_splines:basis-cache", "second decomposition on the same grid object (cached basis) does not recover its g_lm(r_i)", witness=wit)
+    # (9) round 3 (class 10): two interpolants of one grid alive at once — the first one still is the interpolant of its own function after the
+    #     second was built and used (both asked alternately, with different options)
+    F2 = g.interpolate(v2.copy())
+    sel = np.unique(np.linspace(0, g.size - 1, 7).astype(int))
+    F2(g.points[sel], 1)
+    a1 = np.asarray(F(g.points[sel]), dtype=float)
+    a2 = np.asarray(F2(g.points[sel]), dtype=float)
+    F(g.points[sel], 1, True)
+    b1 = np.asarray(F(g.points[sel]), dtype=float)
+    m1 = mask[sel]
+    tol2 = 1e-8 * (1 + comps.shape[0])
+    if not (np.all(np.abs(a1 - vals[sel])[m1] <= tol2 * fscale) and np.all(np.abs(b1 - vals[sel])[m1] <= tol2 * fscale)
+            and np.all(np.abs(a2 - v2[sel])[m1] <= tol2 * (float(np.max(np.abs(v2))) + 1e-300))):
+        ctx.fail("oracle", "atomgrid.interpolate:two-interpolants", "with two interpolants F1 = interpolate(f1), F2 = interpolate(f2) of one grid alive, one of them no longer reproduces its own "
+                 f"function at the grid points {sel.tolist()}: F1 {a1.tolist()} / {b1.tolist()} vs f1 {vals[sel].tolist()}; F2 {a2.tolist()} vs f2 {v2[sel].tolist()}",
+                 witness=dict(wit, second=bl2.to_json()),
+                 snippet=snip("two interpolants alive", f"bl2 = {bl2.to_json()!r}\nv2 = values(grid, bl2)\nF1 = grid.interpolate(vals)\nF2 = grid.interpolate(v2)\nsel = {sel.tolist()!r}\n"
+                              f"F2(grid.points[sel], 1)\nassert np.all(np.abs(np.asarray(F1(grid.points[sel]), dtype=float) - vals[sel]) <= {tol2 * fscale!r}), 'F1 is no longer the interpolant of f1'"))
 
 
 def _oracle_derivs(ctx, g, info, bl, F, splines, wit, budget):
@@ -1377,8 +1742,58 @@ def _oracle_derivs(ctx, g, info, bl, F, splines, wit, budget):
         # radial-only derivative at the centre = slope along the ray theta = phi = 0 (+z)
         got_r = float(F(np.array([c]), deriv=1, only_radial_deriv=True)[0])
         want_r = onesided(np.array([0.0, 0.0, 1.0]))
-        if not abs(got_r - want_r) <= 1e-8 * mag1 + 1e-12 / h:
+        if not abs(got_r - want_r) <= 1e-8 * mag1 + 1e-12 * (abs(val(c)) + 1e-300) / h + (1e-12 / h if bl.amp == 1.0 else 0.0):
             ctx.fail("oracle", "atomgrid.interpolate:radial-deriv", f"only_radial_deriv at the centre: reported {got_r!r}, one-sided slope along +z {want_r!r}", witness=dict(wit, point=c))
+
+
+SNIP_CHAIN = SNIP_HEAD + """
+F = grid.interpolate(vals)
+p = np.array({p!r})
+r, th, ph = (float(x) for x in grid.convert_cartesian_to_spherical(np.array([p]))[0])   # the coordinates the reports refer to
+assert r >= 1e-10 and ph >= 1e-10 and math.sin(ph) != 0.0
+dr, dt, dp = np.asarray(F(np.array([p]), deriv=1, deriv_spherical=True), dtype=float)
+want = np.array([math.cos(th) * math.sin(ph) * dr - math.sin(th) / (r * math.sin(ph)) * dt + math.cos(th) * math.cos(ph) / r * dp,
+                 math.sin(th) * math.sin(ph) * dr + math.cos(th) / (r * math.sin(ph)) * dt + math.sin(th) * math.cos(ph) / r * dp,
+                 math.cos(ph) * dr - math.sin(ph) / r * dp])
+got = np.asarray(F(np.array([p]), deriv=1), dtype=float).reshape(-1)
+assert np.all(np.abs(got - want) <= {tol!r}), f'reported Cartesian derivative {{got}}, chain rule applied to the reported spherical derivatives {{want}}'
+"""
+
+
+def _oracle_chain(ctx, g, info, bl, F, wit):
+    """round 3 (class 7): wherever |r| >= 1e-10, |phi| >= 1e-10 and sin(phi) != 0 — the window in which the library promises it (theorem
+    derivs_consistent_cartesian_partial) — the Cartesian report is the chain rule applied to the reported spherical derivatives: points a
+    factor 1.01 and 100 outside |r| = 1e-10, small polar angles, ordinary points. (Inside the window the angular columns are dropped.)"""
+    rng = ctx.rng
+    c = g.center
+    rmax = float(g.rgrid.points[-1])
+    u = np.array([rng.gauss(0, 1) for _ in range(3)])
+    u /= np.linalg.norm(u)
+    rel = [[1.01e-10, 0, 0], [0, 7e-11, 8e-11], (1e-8 * u).tolist(), (2e-10 * u).tolist(), [3e-8 * rmax, 0, 0.4 * rmax], (0.37 * rmax * u).tolist(),
+           [0.2 * rmax, -0.1 * rmax, 0.0]]
+    for v in rel:
+        p = c + np.array(v, dtype=float)
+        # the spherical coordinates the two reports refer to are the library's own (for polar angles ~1e-7 one unit in the last place of
+        # z / r moves arccos by per cent; that the coordinates are right is the business of the value clause, which computes its own)
+        q = np.asarray(g.convert_cartesian_to_spherical(np.array([p])), dtype=float)[0]
+        if not (q[0] >= 1e-10 and q[2] >= 1e-10 and math.sin(q[2]) != 0.0 and math.pi - q[2] > 1e-6):
+            continue
+        ctx.tagc("oracle:chain-rule")
+        sd = np.asarray(F(np.array([p]), deriv=1, deriv_spherical=True), dtype=float).reshape(-1)
+        got = np.asarray(F(np.array([p]), deriv=1), dtype=float).reshape(-1)
+        if sd.shape != (3,) or got.shape != (3,):
+            continue          # shapes are examined by the correspondence
+        r, th, ph = (float(x) for x in q)
+        st, ct, sp, cp = math.sin(th), math.cos(th), math.sin(ph), math.cos(ph)
+        want = np.array([ct * sp * sd[0] - st / (r * sp) * sd[1] + ct * cp / r * sd[2],
+                         st * sp * sd[0] + ct / (r * sp) * sd[1] + st * cp / r * sd[2],
+                         cp * sd[0] - sp / r * sd[2]])
+        mag = abs(sd[0]) + abs(sd[1]) / (r * abs(sp)) + abs(sd[2]) / r + 1e-300
+        tol = 1e-9 * mag
+        if not np.all(np.abs(got - want) <= tol):
+            ctx.fail("oracle", "atomgrid.interpolate:deriv-cartesian:chain-rule", f"deriv=1 (Cartesian) at {p.tolist()} (r, theta, phi = {[r, th, ph]}): reported {got.tolist()}; the chain rule applied to the "
+                     f"reported spherical derivatives {sd.tolist()} gives {want.tolist()}", witness=dict(wit, point=p),
+                     snippet=SNIP_CHAIN.format(info=info, bl=bl.to_json(), p=[float(x) for x in p], tol=float(tol)))
 
 
 def ut_sph(g, p):
@@ -1744,11 +2159,11 @@ def _route_info(ctx, M):
     return g, info
 
 
-def _guarded(ctx, M, g, info, bl, budget, label):
+def _guarded(ctx, M, g, info, bl, budget, label, derivs=True):
     """an exception out of the library while the clauses are evaluated is a failing input of its own"""
     import traceback
     try:
-        _oracle_atom(ctx, M, g, info, bl, budget, label)
+        _oracle_atom(ctx, M, g, info, bl, budget, label, derivs=derivs)
     except Exception as e:  # noqa: BLE001
         ctx.fail("oracle", "atomgrid.interpolate:raises",
                  f"decomposition / interpolation of a band-limited function raised {type(e).__name__}: {e} (degrees {info['degs']}, method {info['method']})",
@@ -1768,6 +2183,232 @@ q = g.points; q -= np.array([0.7, -0.4, 1.1])            # the caller works with
 assert np.array_equal(g.points, p0), 'editing the array returned by AtomGrid.points changed the grid'
 assert np.allclose(g.interpolate(f)(p0), f, atol=1e-10), 'interpolant does not reproduce the grid values'
 """
+
+
+# ----------------------------------------------------------------------------------------------
+# round 3 oracle: data of extreme but legal magnitude (class 8), arrays handed out (class 9), single-shell grids (class 12)
+# ----------------------------------------------------------------------------------------------
+AMPS = [1e-14, 3e-11, 1e-7, 1e5, 1e14, 1e-50, 1e-290]
+RSCALES = [1e-5, 1e-2, 1e2, 1e5]
+
+
+def _oracle_scaled(ctx, M, budget):
+    """class 8: the same clauses for function values scaled by 1e-14 .. 1e14 (and far below machine epsilon: 1e-50, 1e-290) and for radial
+    grids / functions scaled in r by 1e-5 .. 1e5 — every tolerance of the clauses is relative to the magnitude of the data."""
+    rng = ctx.rng
+    big = budget == "large" or ctx.thorough
+    amps = AMPS if big else [3e-11] + rng.sample([a for a in AMPS if a != 3e-11], 2)
+    for amp in amps:
+        method = rng.choice(["lebedev", "spherical", "maxdet"])
+        g, info = _atom_grid(ctx, M, method=method, mixed=rng.random() < 0.5, zero_kind=rng.choice(["none", "zero"]), cap=9, n=rng.choice([3, 4, 5]))
+        L = int(min(g.degrees)) // 2
+        ctx.tagc(f"oracle:scaled:amp={amp:g}")
+        _guarded(ctx, M, g, info, BandLimited(rng, L, smooth=True, amp=amp), budget, f"scaled:amp={amp:g}")
+    for rs in (RSCALES if big else rng.sample(RSCALES, 1)):
+        method = rng.choice(["lebedev", "spherical", "maxdet"])
+        _, info = _atom_grid(ctx, M, method=method, mixed=rng.random() < 0.5, zero_kind=rng.choice(["none", "zero"]), cap=9, n=rng.choice([3, 4, 5]),
+                             center=np.zeros(3) if rs < 1 else None)
+        info = dict(info, r=(np.array(info["r"]) * rs).tolist(), w=(np.array(info["w"]) * rs).tolist())
+        g = _build(M, info)
+        ctx.tagc(f"oracle:scaled:r={rs:g}")
+        _guarded(ctx, M, g, info, BandLimited(rng, int(min(g.degrees)) // 2, smooth=True, amp=rng.choice([1.0, 1e-9, 1e7]), rscale=rs), budget, f"scaled:r={rs:g}", derivs=False)
+
+
+SNIP_SHIFT = SNIP_DEFS + """
+info0 = {info0!r}
+bl = {bl!r}
+shift = np.array({shift!r})            # exactly representable
+info1 = dict(info0, center=shift.tolist())
+g0, g1 = build(info0), build(info1)
+v0, v1 = values(g0, bl), values(g1, bl)
+pts = np.array({pts!r})
+tol = {tol!r}
+a = np.asarray(g0.interpolate(v0)(pts, {dv!r}, {ds!r}, False), dtype=float)
+b = np.asarray(g1.interpolate(v1)(pts + shift, {dv!r}, {ds!r}, False), dtype=float)
+assert np.all(np.abs(a - b) <= tol), ('interpolant of the translated problem differs from the untranslated one', float(np.max(np.abs(a - b))), tol)
+"""
+
+
+def _oracle_translated(ctx, M, budget):
+    """class 8: the centre far from the origin. The same radial grid, degrees, rotation and band-limited function (given about the centre) once
+    about the origin and once about (2^k, -2^(k-1), 3 2^(k-2)), k in 10 .. 20 (exactly representable shifts): per-shell angular integrals,
+    radial components, interpolant values and first derivatives at translated points against the untranslated ones. The grid points c + r u
+    are rounded at |c| eps, i.e. relative to a shell radius r at |c| eps / r; the tolerance carries that term with a measured factor."""
+    rng = ctx.rng
+    big = budget == "large" or ctx.thorough
+    for k in ([10, 14, 17, 20] if big else [rng.choice([10, 14]), 20]):
+        method = rng.choice(["lebedev", "spherical", "maxdet"])
+        _, info0 = _atom_grid(ctx, M, method=method, mixed=rng.random() < 0.5, zero_kind=rng.choice(["none", "zero"]), cap=9, n=rng.choice([3, 4, 5]), center=np.zeros(3))
+        shift = np.array([2.0 ** k, -(2.0 ** (k - 1)), 3 * 2.0 ** (k - 2)])
+        info1 = dict(info0, center=shift.tolist())
+        ctx.count(["oracle-translated", k, info0], nontrivial=True, tag=f"oracle:translated:2^{k}")
+        try:
+            g0, g1 = _build(M, info0), _build(M, info1)
+            L = int(min(g0.degrees)) // 2
+            bl = BandLimited(rng, L, smooth=True)
+            v0, v1 = _grid_values(M, g0, bl), _grid_values(M, g1, bl)
+            rpos = [x for x in info0["r"] if x > 0]
+            delta = float(np.max(np.abs(shift))) * 2.3e-16
+            nrows = (int(max(g0.degrees)) // 2 + 1) ** 2
+            gsc = float(np.max(np.abs(bl.g(g0.rgrid.points)))) + 1e-300
+            # measured on the pinned tree (6 seeds x 4 shifts): deviations <= 0.31 (integrals), 0.23 (components), 0.58 (values), 1.3 (first
+            # derivatives) in units of (|c| eps / r) * max|g_lm|
+            loose = 5e-10 + 5.0 * delta / min(rpos)
+            wit = dict(info=info0, shift=shift, function=bl.to_json())
+            A0, A1 = np.asarray(g0.integrate_angular_coordinates(v0)), np.asarray(g1.integrate_angular_coordinates(v1))
+            if not np.all(np.abs(A0 - A1) <= loose * gsc):
+                ctx.fail("oracle", "atomgrid.integrate_angular_coordinates:translated", f"centre {shift.tolist()}: per-shell angular integrals {A1.tolist()} differ from those of the same problem about the origin "
+                         f"{A0.tolist()}", witness=wit)
+            C0, C1 = _comps(M, g0, v0), _comps(M, g1, v1)
+            if C0.shape != C1.shape or not np.all(np.abs(C0 - C1) <= loose * gsc):
+                ctx.fail("oracle", "atomgrid.radial_component_splines:translated", f"centre {shift.tolist()}: radial components differ from those of the same problem about the origin "
+                         f"(max deviation {float(np.max(np.abs(C0 - C1))) if C0.shape == C1.shape else 'shape'})", witness=wit)
+            rmax = float(info0["r"][-1])
+            dirs = ctx.np_rng.normal(size=(5, 3))
+            dirs /= np.linalg.norm(dirs, axis=1)[:, None]
+            pts = np.vstack([dirs * np.array([[rng.uniform(0.3, 1.0) * rmax] for _ in range(5)]), [[0.0, 0.0, 0.0], [0.0, 0.0, 0.4 * rmax], [0.3 * rmax, 0.0, 0.0]]])
+            F0, F1 = g0.interpolate(v0), g1.interpolate(v1)
+            rp = np.linalg.norm(pts, axis=1)
+            for (dv, ds) in [(0, False), (1, False), (1, True)]:
+                a = np.asarray(F0(pts, dv, ds, False), dtype=float)
+                b = np.asarray(F1(pts + shift, dv, ds, False), dtype=float)
+                # evaluation points are rounded too: |c| eps relative to their distance from the centre (the centre itself is exact)
+                unit = delta / np.maximum(np.where(rp > 0, rp, np.inf), 1e-300) + delta / min(rpos)
+                if dv == 0:
+                    per = (5e-10 * nrows + 8.0 * unit) * gsc
+                else:
+                    per = (2e-9 * nrows * (1 + 1.0 / np.maximum(rp, 1e-3)) + 25.0 * unit) * gsc
+                tol = per if dv == 0 else (np.repeat(per, 3) if not ds else np.tile(per, 3))
+                if a.shape != b.shape or not np.all(np.abs(a.reshape(-1) - b.reshape(-1)) <= tol):
+                    d = np.abs(a.reshape(-1) - b.reshape(-1)) if a.shape == b.shape else np.array([np.inf])
+                    ctx.fail("oracle", "atomgrid.interpolate:translated", f"centre {shift.tolist()}, deriv={dv}, deriv_spherical={ds}: the interpolant at the translated points differs from the "
+                             f"untranslated one by {float(np.max(d))!r} (allowed {float(np.max(tol))!r})", witness=dict(wit, points=pts),
+                             snippet=SNIP_SHIFT.format(info0=info0, bl=bl.to_json(), shift=shift.tolist(), pts=pts.tolist(), tol=np.asarray(tol).reshape(a.shape).tolist() if a.shape == b.shape else 0.0, dv=dv, ds=ds))
+        except Exception as e:  # noqa: BLE001
+            import traceback
+            ctx.fail("oracle", "atomgrid.interpolate:raises", f"decomposition / interpolation about the centre {shift.tolist()} raised {type(e).__name__}: {e}",
+                     witness=dict(info=info1, traceback=traceback.format_exc()[-1200:]))
+
+
+SNIP_HANDED = SNIP_DEFS + """
+info = {info!r}
+bl = {bl!r}
+grid = build(info)
+vals = values(grid, bl)
+pts = np.array({pts!r})
+def get():
+{getter}
+first = get()
+keep = np.array(first, copy=True)
+try:
+    first *= -3.0; first += 7.0            # the caller works with the array it was given
+except ValueError:
+    pass                                    # read-only: nothing can happen
+second = get()
+assert np.array_equal(np.asarray(second), keep, equal_nan=True), 'the second answer is not the first answer: the array handed out the first time is not the caller\'s own'
+F = grid.interpolate(vals)
+assert np.allclose(np.asarray(F(grid.points), dtype=float), vals, rtol=0, atol=1e-8 * np.max(np.abs(vals)) * 50), 'the grid was changed through the array handed out'
+"""
+
+# name -> (python text of the getter body for the snippet, callable (g, vals, pts) -> ndarray)
+HANDED = {
+    "points": ("    return grid.points", lambda g, v, P: g.points),
+    "convert_cartesian_to_spherical()": ("    return grid.convert_cartesian_to_spherical()", lambda g, v, P: g.convert_cartesian_to_spherical()),
+    "convert_cartesian_to_spherical(points)": ("    return grid.convert_cartesian_to_spherical(pts)", lambda g, v, P: g.convert_cartesian_to_spherical(P)),
+    "integrate_angular_coordinates(f)": ("    return grid.integrate_angular_coordinates(vals)", lambda g, v, P: g.integrate_angular_coordinates(v)),
+    "radial_component_splines(f)[0].c": ("    return grid.radial_component_splines(vals)[0].c", lambda g, v, P: g.radial_component_splines(v)[0].c),
+    "radial_component_splines(f)[1].x": ("    return grid.radial_component_splines(vals)[1].x", lambda g, v, P: g.radial_component_splines(v)[1].x),
+    "spherical_average(f).c": ("    return grid.spherical_average(vals).c", lambda g, v, P: g.spherical_average(v).c),
+    "spherical_average(f).x": ("    return grid.spherical_average(vals).x", lambda g, v, P: g.spherical_average(v).x),
+    "interpolate(f)(points)": ("    return grid.interpolate(vals)(pts)", lambda g, v, P: g.interpolate(v)(P)),
+    "interpolate(f)(points, deriv=1)": ("    return grid.interpolate(vals)(pts, deriv=1)", lambda g, v, P: g.interpolate(v)(P, deriv=1)),
+    "interpolate(f)(points, 1, True)": ("    return grid.interpolate(vals)(pts, 1, True)", lambda g, v, P: g.interpolate(v)(P, 1, True)),
+    "interpolate(f)(points, 2, False, True)": ("    return grid.interpolate(vals)(pts, 2, False, True)", lambda g, v, P: g.interpolate(v)(P, 2, False, True)),
+    "get_shell_grid(1).points": ("    return grid.get_shell_grid(1).points", lambda g, v, P: g.get_shell_grid(1).points),
+    "get_shell_grid(1).weights": ("    return grid.get_shell_grid(1).weights", lambda g, v, P: g.get_shell_grid(1).weights),
+}
+# handed out BY REFERENCE on the pinned tree (the stored object itself; convention of the base class `Grid` and of the plain attribute
+# properties of AtomGrid): in-place edits by the caller do change the grid. Measured and reported as information, not asserted.
+HANDED_BY_REFERENCE = {
+    "weights": lambda g, v, P: g.weights,
+    "indices": lambda g, v, P: g.indices,
+    "center": lambda g, v, P: g.center,
+    "basis (after the first decomposition)": lambda g, v, P: (g.radial_component_splines(v), g.basis)[1],
+    "rgrid.points": lambda g, v, P: g.rgrid.points,
+    "rgrid.weights": lambda g, v, P: g.rgrid.weights,
+}
+
+
+def _oracle_handed_out(ctx, M, budget):
+    """class 9: every array the decomposition / interpolation routes of AtomGrid hand out is edited in place by the "caller"; the same request
+    again must give the first answer and the grid must still decompose / interpolate exactly (all clauses against a band-limited function)."""
+    rng = ctx.rng
+    big = budget == "large" or ctx.thorough
+    for rep in range(3 if big else 1):
+        _, info = _atom_grid(ctx, M, n=rng.choice([3, 4]), cap=9, mixed=rng.random() < 0.5, zero_kind=rng.choice(["none", "zero"]),
+                             center=[np.zeros(3), None][rep % 2] if rep else np.zeros(3))
+        g0 = _build(M, info)
+        bl = BandLimited(rng, int(min(g0.degrees)) // 2, smooth=True)
+        pts = _eval_points(rng, g0, 3)
+        names = list(HANDED) if big or rep == 0 else rng.sample(list(HANDED), 6)
+        for name in names:
+            text, get = HANDED[name]
+            g = _build(M, info)
+            vals = _grid_values(M, g, bl)
+            keepv = vals.copy()
+            ctx.count(["oracle-handed-out", name, info], nontrivial=True, tag="oracle:handed-out:" + name.split("(")[0])
+            try:
+                first = get(g, vals, pts)
+                keep = np.array(first, copy=True)
+                try:
+                    first *= -3.0
+                    first += 7.0
+                except ValueError:
+                    pass
+                second = np.asarray(get(g, vals, pts))
+                snippet = SNIP_HANDED.format(info=info, bl=bl.to_json(), pts=pts.tolist(), getter=text)
+                if not _same(second, keep):
+                    ctx.fail("oracle", "atomgrid.handed-out:" + name, f"{name}: after the caller edited the returned array in place, the same request gives another answer "
+                             "(the array handed out is not the caller's own)", witness=dict(info=info, function=bl.to_json()), snippet=snippet)
+                    continue
+                if not _same(vals, keepv):
+                    ctx.fail("oracle", "atomgrid.handed-out:" + name, f"{name}: the function values handed in changed", witness=dict(info=info), snippet=snippet)
+                    vals = keepv.copy()
+                for op in ("iac", "rcs", "interp"):
+                    msg = _clause(M, g, bl.g(g.rgrid.points), keepv, vals, op)
+                    if msg:
+                        ctx.fail("oracle", "atomgrid.handed-out:" + name, f"{name}: after the caller edited the returned array in place the grid no longer decomposes a band-limited function: {msg}",
+                                 witness=dict(info=info, function=bl.to_json()), snippet=snippet)
+                        break
+            except Exception as e:  # noqa: BLE001
+                ctx.fail("oracle", "atomgrid.interpolate:raises", f"{name} twice on one grid raised {type(e).__name__}: {e}", witness=dict(info=info))
+        if rep == 0:
+            for name, get in HANDED_BY_REFERENCE.items():
+                g = _build(M, info)
+                vals = _grid_values(M, g, bl)
+                try:
+                    a = get(g, vals, pts)
+                    shared = a is get(g, vals, pts)
+                except Exception:  # noqa: BLE001
+                    shared = None
+                ctx.tagc(f"info:handed-out-by-reference:{name}:{'same-object' if shared else 'fresh' if shared is False else 'n/a'}")
+
+
+def _oracle_single_shell(ctx, M, budget):
+    """class 12: grids with one radial shell. The angular-integral clauses hold as for any grid; the spline-based entry points need two
+    radial nodes (scipy's CubicSpline rejects one) — a rejection, counted as information."""
+    rng = ctx.rng
+    for zk in ("none", "zero", "tiny"):
+        method = rng.choice(METHODS)
+        g, info = _atom_grid(ctx, M, n=1, method=method, mixed=False, zero_kind=zk, cap={"ahrens_beylkin": 19}.get(method, 11),
+                             center=np.zeros(3) if zk == "tiny" else None)
+        bl = BandLimited(rng, int(min(g.degrees)) // 2, smooth=zk != "zero")
+        _guarded(ctx, M, g, info, bl, budget, "single-shell:" + zk)
+        try:
+            g.interpolate(_grid_values(M, g, bl))
+            ctx.tagc("info:single-shell:interpolate:accepted")
+        except ValueError:
+            ctx.tagc("info:single-shell:interpolate:rejected")
 
 
 def oracle(ctx: Ctx, budget: str):
@@ -1798,6 +2439,8 @@ def oracle(ctx: Ctx, budget: str):
     plans.append(dict(method=rng.choice(["lebedev", "spherical", "maxdet"]), mixed=True, zero_kind="edge", cap=9, n=6, rotate=rng.choice([0, 5])))
     plans.append(dict(method=rng.choice(["lebedev", "spherical", "maxdet"]), mixed=rng.random() < 0.5, zero_kind="zero-edge", cap=9, n=7))
     plans.append(dict(method="lebedev", degs=[rng.choice([17, 19, 21, 23])], zero_kind="none", n=3))
+    # round 3 (class 7): radial nodes a factor 100 on either side of the 1e-8 threshold, rotated
+    plans.append(dict(method=rng.choice(["lebedev", "spherical", "maxdet"]), mixed=True, zero_kind="far-edge", cap=9, n=5, rotate=rng.choice([0, 11])))
     if big:
         plans.append(dict(method="lebedev", degs=[41], zero_kind="zero", n=4, Lcap=14, rotate=rng.choice([0, 7])))
         plans.append(dict(method="lebedev", degs=[29, 59, 41], zero_kind="none", n=4, Lcap=14))
@@ -1806,7 +2449,7 @@ def oracle(ctx: Ctx, budget: str):
     for ip, kw in enumerate(plans):
         Lcap = kw.pop("Lcap", 9)
         canonical = kw.pop("canonical", False)
-        if kw["zero_kind"] in ("tiny", "both", "edge", "zero-edge"):
+        if kw["zero_kind"] in ("tiny", "both", "edge", "zero-edge", "far-edge"):
             # the points of a shell of radius 1e-9 about a centre of size 1 are rounded at the 1e-7 level relative to the
             # radius; the property is about the exact points, so such shells are examined about the origin
             kw["center"] = np.zeros(3)
@@ -1845,6 +2488,55 @@ def oracle(ctx: Ctx, budget: str):
     _oracle_state(ctx, M, budget)
     _oracle_dtype(ctx, M, budget)
     _oracle_mol(ctx, M, budget)
+    # round 3
+    _oracle_scaled(ctx, M, budget)
+    _oracle_translated(ctx, M, budget)
+    _oracle_handed_out(ctx, M, budget)
+    _oracle_single_shell(ctx, M, budget)
+
+
+SNIP_PTS = SNIP_HEAD + """
+arr = np.array({arr!r})
+F = grid.interpolate(vals)
+spl = grid.radial_component_splines(vals)
+r, az, pol = angles(arr.reshape(-1, 3) - grid.center)
+Y = real_harmonics(int(max(grid.degrees)) // 2, az, pol)
+want = np.einsum('ij,ij->j', np.array([s(r) for s in spl]), Y[:len(spl)])
+got = np.asarray(F(arr), dtype=float)
+assert got.shape == want.shape and np.all(np.abs(got - want) <= {tol!r}), (got, want)
+"""
+
+
+def _points_scenario(ctx, M, g, info, arr):
+    """the value clause at the very evaluation points of a correspondence disagreement, in the container shape they were handed over in
+    ((M, 3), or flat (3 k,)), and the derivative reports for that shape against those for the (M, 3) form"""
+    rng = ctx.rng
+    if arr.size == 0 or arr.size % 3 != 0 or arr.ndim > 2 or (arr.ndim == 2 and arr.shape[1] != 3):
+        return
+    try:
+        bl = BandLimited(rng, min(int(min(g.degrees)) // 2, 9), smooth=True)
+        vals = _grid_values(M, g, bl)
+        F = g.interpolate(vals.copy())
+        splines = g.radial_component_splines(vals.copy())
+        P = arr.reshape(-1, 3)
+        rr, az, pol = _angles(P - g.center)
+        Y = real_harmonics(int(max(g.degrees)) // 2, az, pol)[: len(splines)]
+        S0 = np.array([sp(rr) for sp in splines])
+        want = np.einsum("ij,ij->j", S0[: Y.shape[0]], Y)
+        tol = 1e-10 * (float(np.max(np.sum(np.abs(S0), axis=0))) + 1e-300)
+        ctx.count(["oracle-points", info, list(arr.shape)], nontrivial=True, tag="oracle:at-corr-disagreement:points")
+        got = np.asarray(F(arr), dtype=float)
+        if got.shape != want.shape or not np.all(np.abs(got - want) <= tol):
+            ctx.fail("oracle", "atomgrid.interpolate:is-sum", f"points handed over with shape {arr.shape}: interpolant {got.tolist()}, sum_lm spline_lm(r) Y_lm {want.tolist()}",
+                     witness=dict(info=info, function=bl.to_json(), points=arr), snippet=SNIP_PTS.format(info=info, bl=bl.to_json(), arr=arr.tolist(), tol=tol))
+        for fl in FLAGS[1:]:
+            a = np.asarray(F(arr, *fl), dtype=float)
+            b = np.asarray(F(P.copy(), *fl), dtype=float)
+            if not _same(a, b):
+                ctx.fail("oracle", "atomgrid.interpolate:points-shape", f"points handed over with shape {arr.shape}, deriv={fl[0]}, deriv_spherical={fl[1]}, only_radial_deriv={fl[2]}: the report differs "
+                         "from the one for the same points as an (M, 3) array", witness=dict(info=info, points=arr))
+    except Exception as e:  # noqa: BLE001
+        ctx.fail("oracle", "atomgrid.interpolate:raises", f"the interpolant raised {type(e).__name__}: {e} for points of shape {arr.shape}", witness=dict(info=info, points=arr))
 
 
 _INFO_KEYS = {"r", "w", "degs", "center", "rotate", "method"}
@@ -1897,6 +2589,8 @@ def oracle_at(ctx: Ctx, failure):
             _guarded(ctx, M, _build(M, info), info, BandLimited(rng, min(Lmax, 9), smooth=False), "large", "at-corr-disagreement:canonical")
         if any(t in failure.key for t in (":dtype", ":modifies-input")) and g.n_shells >= 2:
             _dtype_scenario(ctx, M, _build(M, info), info)
+        if w.get("points") is not None and g.n_shells >= 2:
+            _points_scenario(ctx, M, _build(M, info), info, np.asarray(w["points"], dtype=float))
     if any(t in failure.key for t in (":history", ":two-grids", ":basis-cache", ":modifies-input")):
         same = len(infos) >= 2 and len(infos[0]["r"]) == len(infos[1]["r"])
         if all(len(i["r"]) >= 2 for i in infos[:2]):
